@@ -56,7 +56,18 @@ def probe_fixes(ctx: Ctx) -> dict:
     w.apply(("rtf_ow", "first_name", 2))
     fx718 = not any(k.startswith("__splink__df_predict_") for k in w.cache.data)
     w.close()
-    return {"fx77": fx77, "fx716": fx716, "fx78": fx78, "fx717": fx717, "fx718": fx718, "graph_metrics_errors": [r1, r2]}
+    # blocking analysis answers from the table cache (before 16fdbf82) or always executes
+    w = X.World("duckdb")
+    w.apply(("ba_cum",))
+    w.apply(("ba_nl", 0))
+    w.reset_trackers()
+    w.apply(("ba_cum",))
+    w.apply(("ba_nl", 0))
+    _, hits, _ = w.observe()
+    fxba = not any(t in ("__splink__df_count", "__splink__df_count_cumulative_blocks", "__splink__block_counts") for t, _ in hits)
+    w.close()
+    return {"fx77": fx77, "fx716": fx716, "fx78": fx78, "fx717": fx717, "fx718": fx718, "fxba": fxba,
+            "graph_metrics_errors": [r1, r2]}
 
 
 # ----------------------------------------------------------------------------------------- histories
